@@ -153,6 +153,37 @@ fn build(n: usize, s: &MatSpec) -> Result<(Matrix, Vec<f64>), String> {
                         model[3 * 4 + 1] = val(3, 1);
                         return (m, model);
                     }
+                    5..=8 => {
+                        // run-time offsets in a run-time listing order: three two-entry diagonals and the main one.
+                        // a = outermost sub-, b = outermost super-diagonal, c = an inner one on either side.
+                        let a = ml.min(n - 2) as isize;
+                        let b = -(mu.min(n - 2) as isize);
+                        let c = if (ml + mu) % 2 == 0 { a / 2 } else { b / 2 };
+                        let ks = match (ml * 7 + mu * 3 + n) % 6 {
+                            0 => [a, b, c],
+                            1 => [a, c, b],
+                            2 => [b, a, c],
+                            3 => [b, c, a],
+                            4 => [c, a, b],
+                            _ => [c, b, a],
+                        };
+                        let e = |k: isize, t: usize| if k >= 0 { val(t + k as usize, t) } else { val(t, t + (-k) as usize) };
+                        let (k1, k2, k3) = (ks[0], ks[1], ks[2]);
+                        let m = match n {
+                            5 => banded_matrix!(k1 => [e(k1, 0), e(k1, 1)], k2 => [e(k2, 0), e(k2, 1)], 0 => [val(0,0), val(1,1), val(2,2), val(3,3), val(4,4)], k3 => [e(k3, 0), e(k3, 1)]),
+                            6 => banded_matrix!(k1 => [e(k1, 0), e(k1, 1)], k2 => [e(k2, 0), e(k2, 1)], 0 => [val(0,0), val(1,1), val(2,2), val(3,3), val(4,4), val(5,5)], k3 => [e(k3, 0), e(k3, 1)]),
+                            7 => banded_matrix!(k1 => [e(k1, 0), e(k1, 1)], k2 => [e(k2, 0), e(k2, 1)], 0 => [val(0,0), val(1,1), val(2,2), val(3,3), val(4,4), val(5,5), val(6,6)], k3 => [e(k3, 0), e(k3, 1)]),
+                            _ => banded_matrix!(k1 => [e(k1, 0), e(k1, 1)], k2 => [e(k2, 0), e(k2, 1)], 0 => [val(0,0), val(1,1), val(2,2), val(3,3), val(4,4), val(5,5), val(6,6), val(7,7)], k3 => [e(k3, 0), e(k3, 1)]),
+                        };
+                        for i in 0..n { model[i * n + i] = val(i, i); }
+                        for k in ks {
+                            for t in 0..2usize {
+                                let (i, j) = if k >= 0 { (t + k as usize, t) } else { (t, t + (-k) as usize) };
+                                model[i * n + j] = val(i, j);
+                            }
+                        }
+                        return (m, model);
+                    }
                     _ => Matrix::banded(n, ml, mu),
                 }
             }
